@@ -1,4 +1,5 @@
 import SemantivaModel.Driver.C11
+import SemantivaModel.Driver.C12
 /-!
 `modeldriver`: one JSON object per line in, one per line out.
 `{"m": "<model>.<op>", "id": <any>, ...}` → `{"id": <same>, "ok": ...}` or `{"id":…, "err": "..."}`.
@@ -7,12 +8,16 @@ open Lean SemantivaModel.Driver
 
 structure DState where
   c11 : C11.State := {}
+  c12 : C12.State := {}
 
 def dispatch (st : DState) (j : Json) : Except String (DState × Json) := do
   let m ← strField j "m"
   if m.startsWith "c11." then
     let (s, r) ← C11.handle st.c11 m j
     pure ({ st with c11 := s }, r)
+  else if m.startsWith "c12." then
+    let (s, r) ← C12.handle st.c12 m j
+    pure ({ st with c12 := s }, r)
   else throw s!"unknown model op {m}"
 
 partial def loop (h : IO.FS.Stream) (out : IO.FS.Stream) (st : DState) : IO Unit := do
